@@ -300,6 +300,10 @@ def run(ctx, out):
         as_curie = rng.random() < 0.4
         dg.bind("ex", EX)
         sg.bind("ex", EX)
+        if k % 3 == 0:
+            # documents that bind prefixes spelled like IRI schemes (the W3C HTTP vocabulary is usually bound to `http:`)
+            for g_ in (dg, sg):
+                g_.bind("http", URIRef("http://www.w3.org/2011/http#")); g_.bind("urn", URIRef("urn:example:")); g_.bind("https", URIRef("https://ex.test/sec#"))
         fopt = [("ex:" + str(f)[len(str(EX)):]) if as_curie else str(f) for f in F]
         uopt = [("ex:" + str(u)[len(str(EX)):]) if as_curie else str(u) for u in U]
         kw = {"advanced": True} if adv else {}
